@@ -112,7 +112,12 @@ def generate(tier):
             for ctx in CTX[1:]:
                 for cfg in (('P', 'EP') if tier == 'quick' else CFGS):
                     cases.append(build(sh, assign, cfg, ctx=ctx))
-    return cases
+    seen, out = set(), []
+    for c in cases:
+        if c.key not in seen:
+            seen.add(c.key)
+            out.append(c)
+    return out
 
 
 def check(v, tier):
